@@ -127,10 +127,16 @@ class Ctx:
 
     def check_floors(self) -> None:
         failing = {f.rule for f in self.findings} | {f.rule.split("-")[0] for f in self.findings}
+        failing_files = {f.construct.split("::")[0] for f in self.findings}
+        files_of = {}
+        for rec in self.obligations:
+            files_of.setdefault(rec["rule"], set()).add(rec["construct"].split("::")[0])
         for rule, n in self.floors.items():
             got = self.counts.get(rule, 0)
             if rule in failing or rule.split("-")[0] in failing:
                 continue  # a reported violation of the rule explains missing follow-up instances
+            if files_of.get(rule, set()) & failing_files:
+                continue  # so does a violation reported (by another rule) in a file where this rule has its instances
             if got < n:
                 raise AnalysisError(
                     f"rule {rule} evaluated {got} instance(s), fewer than the {n} confirmed by hand "
